@@ -134,8 +134,18 @@ func buildCases() ([]scen.Case, map[string]caseInfo) {
 				if n%2 == 0 {
 					ctl.Methods = []scen.Method{sib, op} // declaration order must not matter
 				}
+				// a warning-level remark on the controller's own annotations changes nothing about its routes' security
+				lint := ""
+				switch (n / 2) % 3 {
+				case 1:
+					lint = "duplicated @Tag"
+					ctl.Extra = []string{"// @Tag(Again" + id + ")"}
+				case 2:
+					lint = "properties on @Tag"
+					ctl.Tag = scen.S("T" + id + ", { note: \"stray\" }")
+				}
 				cases = append(cases, scen.Case{ID: id, Unit: scen.Unit{Controllers: []scen.Controller{ctl}},
-					Features: map[string]string{"method": m.Name, "controller": c.Name, "hidden": fmt.Sprint(hidden)}, Desc: ctl})
+					Features: map[string]string{"method": m.Name, "controller": c.Name, "hidden": fmt.Sprint(hidden), "controller-lint": lint}, Desc: ctl})
 				info[id] = caseInfo{m, c, hidden}
 			}
 		}
